@@ -11,6 +11,8 @@
 #include <pthread.h>
 #include <sched.h>
 #include <semaphore.h>
+#include <dirent.h>
+#include <sys/resource.h>
 #include <time.h>
 #include <stdarg.h>
 #include <sys/stat.h>
@@ -241,6 +243,21 @@ int __wrap_pthread_cond_signal(pthread_cond_t *c) {
 }
 }  // extern "C"
 
+// number of open descriptors of this process (the descriptor used for counting excluded)
+static int open_fds() {
+  g_inside++;
+  int n = 0;
+  DIR *d = opendir("/proc/self/fd");
+  if (d) {
+    while (readdir(d)) n++;
+    closedir(d);
+    n -= 3;   // ".", "..", the directory stream itself
+  }
+  g_inside--;
+  return n;
+}
+static int g_fd_baseline = 0;
+
 // ------------------------------------------------------------------ the store
 class Store : public ola::FileBackedPreferences {
  public:
@@ -307,7 +324,7 @@ static string dump_of_image(const Img &img, const string &scratch_dir) {
   return d == "!" ? "-" : d;
 }
 
-struct SaveReport { string calls, images; bool atomic; vector<Img> imgs; Img at_return; bool big; };
+struct SaveReport { string calls, images; bool atomic; vector<Img> imgs; Img at_return; bool big; int fd_delta; };
 
 // run `act` (something that ends with a Save()) with capture on, then Synchronize()
 template <typename F>
@@ -326,6 +343,7 @@ static SaveReport captured_save(F act) {
   g_inside--;
   if (g_spurious_seen) usleep(20000);  // (a saver still running after a premature return settles)
   g_capture = false;
+  r.fd_delta = open_fds() - g_fd_baseline;   // descriptors open at quiescence, relative to the start of the case
   r.big = big;
   r.calls = g_calls.empty() ? "-" : g_calls;
   r.imgs = g_imgs;
@@ -355,7 +373,7 @@ static void set_directory(const Img &img) {
 }
 
 static string save_keys(const string &n, const SaveReport &r, const Img &final_img) {
-  return ";y" + n + "=" + file_s(r.at_return.has_conf, r.at_return.conf) + ";f" + n + "=" + file_s(final_img.has_conf, final_img.conf) +
+  return ";d" + n + "=" + vh::str(r.fd_delta) + ";y" + n + "=" + file_s(r.at_return.has_conf, r.at_return.conf) + ";f" + n + "=" + file_s(final_img.has_conf, final_img.conf) +
          ";t" + n + "=" + file_s(final_img.has_tmp, final_img.tmp) +
          (r.big ? ";xc" + n + "=" + r.calls : ";c" + n + "=" + r.calls + ";i" + n + "=" + r.images) +
          ";a" + n + "=" + (r.atomic ? "1" : "0");
@@ -398,6 +416,7 @@ static string handle(const string &payload) {
   spit(g_tmp, false, "");
   g_inside--;
   new_process();
+  g_fd_baseline = open_fds();
   string out;
   vector<string> ops = vh::split(payload);
   for (size_t i = 0; i < ops.size(); i++) {
@@ -513,13 +532,52 @@ static string handle(const string &payload) {
              ";z" + n + "=" + file_s(has2, file2) + ";a" + n + "=" + (atomic ? "1" : "0") +
              ";xc" + n + "=" + (g_calls.empty() ? "-" : g_calls) + (held ? "" : "!nohold") + ";xi" + n + "=" + images;
       (void) saved2;
+    } else if (op == "Q") {
+      // Q:<n>:<key>  n rounds of SetValue(key, round) + Save() + Synchronize() on the long-lived saver
+      // thread, with the descriptor limit lowered to what is open now + 24 (a daemon runs for months:
+      // whatever a save leaks, it will run out of).  After every round the file must load as the store.
+      unsigned rounds = vh::num(a[1]);
+      string key = bytes(a[2]);
+      struct rlimit old_lim, low;
+      getrlimit(RLIMIT_NOFILE, &old_lim);
+      low = old_lim;
+      low.rlim_cur = open_fds() + 24;
+      setrlimit(RLIMIT_NOFILE, &low);
+      unsigned stale = 0, first_stale = 0;
+      int fd_before = open_fds();
+      string scratch = g_dir + "/img";
+      for (unsigned j = 1; j <= rounds; j++) {
+        g_store->SetValue(key, "round-" + vh::str(j));
+        g_store->Save();
+        g_saver->Synchronize();
+        g_inside++;
+        string data;
+        bool has = slurp(g_conf, &data);
+        g_inside--;
+        // compare the bytes (no descriptor needed beyond the one slurp used): the file is the store's save
+        bool ok = has;
+        if (ok) {
+          Img img; img.has_conf = true; img.conf = data; img.has_tmp = false;
+          setrlimit(RLIMIT_NOFILE, &old_lim);           // the comparison itself may use descriptors freely
+          ok = load_image(img, scratch) == g_store->Dump();
+          setrlimit(RLIMIT_NOFILE, &low);
+        }
+        if (!ok) { if (!stale) first_stale = j; stale++; }
+      }
+      int fd_after = open_fds();
+      setrlimit(RLIMIT_NOFILE, &old_lim);
+      g_inside++;
+      Img fin = snapshot();
+      g_inside--;
+      out += "s" + n + "=" + g_store->Dump() + ";q" + n + "=" + vh::str(stale) + (stale ? "@" + vh::str(first_stale) : "") +
+             ";d" + n + "=" + vh::str(fd_after - fd_before) + ";y" + n + "=" + file_s(fin.has_conf, fin.conf);
     } else if (op == "Wc" || op == "Wr") {
       // a save during which close() (Wc) or rename() (Wr) fails
       (op == "Wc" ? g_fail_close : g_fail_rename) = 1;
       SaveReport r = captured_save(PlainSave());
       g_fail_close = g_fail_rename = 0;
       Img fin = r.imgs.back();
-      out += "s" + n + "=" + g_store->Dump() + ";y" + n + "=" + file_s(r.at_return.has_conf, r.at_return.conf) +
+      out += "s" + n + "=" + g_store->Dump() + ";d" + n + "=" + vh::str(r.fd_delta) + ";y" + n + "=" + file_s(r.at_return.has_conf, r.at_return.conf) +
              ";f" + n + "=" + file_s(fin.has_conf, fin.conf) + ";t" + n + "=" + file_s(fin.has_tmp, fin.tmp) +
              ";xc" + n + "=" + r.calls + ";xi" + n + "=" + r.images + ";a" + n + "=" + (r.atomic ? "1" : "0");
     } else if (op == "W") {
@@ -529,7 +587,7 @@ static string handle(const string &payload) {
       SaveReport r = captured_save(PlainSave());
       g_fail_from = 0;
       Img fin = r.imgs.back();
-      out += "s" + n + "=" + g_store->Dump() + ";y" + n + "=" + file_s(r.at_return.has_conf, r.at_return.conf) +
+      out += "s" + n + "=" + g_store->Dump() + ";d" + n + "=" + vh::str(r.fd_delta) + ";y" + n + "=" + file_s(r.at_return.has_conf, r.at_return.conf) +
              ";f" + n + "=" + file_s(fin.has_conf, fin.conf) + ";t" + n + "=" + file_s(fin.has_tmp, fin.tmp) +
              ";xc" + n + "=" + r.calls + ";xi" + n + "=" + r.images + ";a" + n + "=" + (r.atomic ? "1" : "0");
     } else if (op == "K") {
